@@ -750,6 +750,64 @@ def ob_jacobian(cfg, seed):
     return Verdict(DISCHARGED, backend="native: Jacobian vs Richardson finite differences of the residual", detail=f"{checked} points, worst {worst:.1e}", sub=checked)
 
 
+def ob_maxwell_consistency(cfg, seed):
+    """thermodynamic consistency of the visco-elastic branches: in the local residual the strain increment of a Maxwell dashpot is driven by the force conjugate to it in
+    the free energy, A_i = - d psi / d eps_v_i (obtained here by central differences of the real Compute_psi):  r_v_i == d eps_v_i - (dt / tau_i) (g_i C)^-1 A_i  at the
+    end-of-step state -- which is what makes the branch dissipation A_i : d eps_v_i non-negative (also together with plasticity, where eps_e = eps - eps_p)."""
+    from EasyFEA.FEM._linalg import FeArray
+    b = make_behavior(cfg)
+    branches = getattr(b, "_Behavior__branches")
+    if not branches or b.layout.n == 0:
+        raise Unsupported("no Maxwell branch / no local Newton in this configuration")
+    rng = np.random.default_rng(seed + 5)
+    Ne, nPg = 2, 3
+    nz = b.layout.n
+    has_y = cfg.get("surface") is not None
+    nu = nz + (1 if has_y else 0)
+    dt = 0.3
+    Cm = b._C_e_pg(Ne, nPg)
+    C6 = np.asarray(Cm)[0, 0] if np.asarray(Cm).ndim == 4 else np.asarray(Cm)
+    R = b._Behavior__Residual
+    n = 0
+    for trial in range(3):
+        eps6 = 2e-3 * rng.normal(size=(Ne, nPg, 6))
+        z = 1e-3 * rng.normal(size=(Ne, nPg, nz))
+        u = 5e-4 * rng.normal(size=(Ne, nPg, nu))
+        if Slot_p(b) is not None:
+            z[..., Slot_p(b)] = np.abs(z[..., Slot_p(b)])
+            u[..., Slot_p(b)] = np.abs(u[..., Slot_p(b)])
+            if has_y:
+                u[..., nz] = u[..., Slot_p(b).start]
+        zfe = FeArray.asfearray(z)
+        r = np.asarray(R(FeArray.asfearray(eps6), FeArray.asfearray(u), zfe, Cm, dt)[0])
+        zend = z + u[..., :nz]
+        psi = lambda zz: np.asarray(b.Compute_psi(FeArray.asfearray(eps6), FeArray.asfearray(zz)))
+        for i, br in enumerate(branches):
+            sl = b.layout.slots[f"eps_v{i}"]
+            A = np.zeros((Ne, nPg, 6))
+            h = 1e-6
+            for c_ in range(6):
+                d = np.zeros(nz)
+                d[sl.start + c_] = h
+                A[..., c_] = -(psi(zend + d) - psi(zend - d)) / (2 * h)
+            drive = np.linalg.solve(br.g * C6, A[..., None])[..., 0]            # (g C)^-1 A
+            want = u[..., sl] - (dt / br.tau) * drive
+            e = float(np.abs(r[..., sl] - want).max() / max(np.abs(want).max(), 1e-30))
+            n += 1
+            if e > 1e-6:
+                raise Refuted(f"{cfg_name(cfg)}: Maxwell branch {i} (g = {br.g}, tau = {br.tau}): its residual is not d eps_v - (dt/tau) (g C)^-1 A with A = -d psi/d eps_v "
+                              f"(relative difference {e:.3e}): the dashpot is not driven by its conjugate force", cex=dict(config=cfg, branch=i), signature=f"maxwell:{cfg_name(cfg)}",
+                              replay=dict(confirmed=True, rel_err=e))
+    return Verdict(DISCHARGED, backend="native: residual vs finite differences of the free energy", sub=n)
+
+
+def Slot_p(b):
+    for k, v in b.layout.slots.items():
+        if str(getattr(k, "value", k)) == "p":
+            return v
+    return None
+
+
 def ob_solvers(cfg, seed):
     from EasyFEA.FEM._linalg import FeArray
     b1, b2 = make_behavior(cfg, "auto"), make_behavior(cfg, "newton")
@@ -984,6 +1042,10 @@ def build(tier, seed):
         if probe.layout.n and probe._Behavior__eigen is None:
             obs.append(Ob(f"C19.jacobian.{cfg_name(cfg)}", ob_jacobian, (cfg, seed + 2), "X", (f"{BEH}::Behavior.__Jacobian", f"{BEH}::Behavior.__Residual"), bound="flowing points of 12 seeded strain paths",
                           clause="dr/du and dr/deps of the local solve == derivatives of its residual", timeout=1800))
+    for cfg in cfgs:
+        if cfg.get("branches"):
+            obs.append(Ob(f"C19.maxwell.{cfg_name(cfg)}", ob_maxwell_consistency, (cfg, seed), "X", (f"{BEH}::Behavior.__Residual", f"{BEH}::Behavior.Compute_psi"), bound="3 random states x 6 points",
+                          clause="each Maxwell dashpot is driven by the force conjugate to it in the free energy (non-negative branch dissipation), with and without plasticity", timeout=600))
     for cfg in [dict(surface="VonMises"), dict(surface="VonMises", hardening="Linear"), dict(surface="VonMises", hardening="Voce"), dict(surface="Hill", hardening="Linear"), dict(surface="Hill", hardening="Swift"),
                 dict(surface="VonMises", hardening="Linear", dim=2, planeStress=True), dict(surface="Hill", hardening="Voce", dim=2), dict(surface="VonMises", hardening="Linear", rate="Norton")]:
         obs.append(Ob(f"C19.solvers.{cfg_name(cfg)}", ob_solvers, (cfg, seed + 1), "X", ("EasyFEA/Models/InElastic/_spectral.py::Solve", f"{BEH}::Behavior.__Flow"), bound="12 seeded strain paths",
